@@ -226,7 +226,11 @@ def r08d(ctx):
     nones = [(b, si) for (b, si, e) in oks if e[0] == 'agg' and e[2].endswith('Result::Ok') and e[3][0][1][0] == 'agg' and e[3][0][1][2].endswith('Option::None')]
     errs = [(b, si) for (b, si, e) in oks if e[0] == 'agg' and e[2].endswith('Result::Err')]
     somes = [(b, si) for (b, si, e) in oks if e[0] == 'agg' and e[2].endswith('Result::Ok') and e[3][0][1][0] == 'agg' and e[3][0][1][2].endswith('Option::Some')]
-    ok = len(nones) == 1 and len(errs) >= 1 and len(somes) == 1
+    # everything that is not a FormatError keeps its outcome: explicit `Ok(v) => Ok(Some(v))`, `Err(e) => Err(e)` arms, or
+    # `self.map(Some)` (Ok payload wrapped, Err passed through)
+    map_form = [1 for (b, si, e) in oks if e[0] == 'call' and sg(e[1]) == 'core::result::Result::map' and len(e[2]) == 2 and e[2][0][0] == 'param' and e[2][0][1] == 1
+                and e[2][1][0] == 'fn' and sg(e[2][1][1]).endswith('Option::Some')]
+    ok = len(nones) == 1 and ((len(errs) >= 1 and len(somes) == 1) or (len(map_form) == 1 and not errs and not somes))
     fmt_edges = []
     if ok:
         adt = F.adt('cas_object::error::CasObjectError')
